@@ -26,6 +26,12 @@ def founder(n, L, rng, nrng):
             mat[:, :, j] = 0; mat[rng.randrange(2), rng.randrange(n), j] = 1
         elif r < 0.30:
             mat[:, :, j] = 1; mat[rng.randrange(2), rng.randrange(n), j] = 0
+    # memory layout of the founders' matrix: as built, Fortran-ordered, or the transposed view a marker-major reader (VCF) produces
+    lay = rng.randrange(3)
+    if lay == 1:
+        mat = np.asfortranarray(mat)
+    elif lay == 2:
+        mat = np.ascontiguousarray(mat.transpose(2, 1, 0)).transpose(2, 1, 0)
     nchr = 2 if L >= 4 else 1
     chrgrp = np.array([1 + (j * nchr) // L for j in range(L)], dtype="int64")
     xo = np.array([0.5 if (j == 0 or chrgrp[j] != chrgrp[j - 1]) else rng.choice([0.0, 0.1, 0.3, 0.5]) for j in range(L)])
